@@ -46,6 +46,16 @@ CLAIMED["C12"] = dict(
          "The path re-ordering clause (TABresult.self_to_path) is covered under C29.",
     note=TB + "; ray.wait / ray.get external contracts as quoted from ray's documentation; schedule space bounded in n and in the number of unconstrained rounds")
 
+CLAIMED["C11"] = dict(
+    text="run_grid.read_factors (real text) executed for EVERY order in which glob may list the factor files -- all permutations of file "
+         "sets with up to 3 (quick) / 4 (thorough) files incl. gaps, numerically-vs-lexicographically different names and the largest "
+         "8-digit iteration, restart_iteration -1..-5 and explicit iterations -- with the file names produced by the REAL write_factors: the "
+         "iteration chosen is max+iter+1 (clamped, closest earlier file if missing), independent of the listing. Complete for the stated "
+         "sizes (explicit enumeration of the external's behaviours). The state-reconstruction and continuation clauses are carried by a "
+         "bounded stand-in only: real run() of N iterations vs run(k)+restart(...) under sorted/reversed/rotated listings, memory and "
+         "dump_results storage, random 3-band models (labelled bounded, not counted as proved).",
+    note=TB + "; glob.glob external contract: matching paths in arbitrary order; np.save/np.load and pickle value round trip assumed")
+
 NOT_APPLICABLE = {
     "C20": "real-space symmetrisation is a data-dependent floating-point orbit search over irrep objects; its postcondition is only statable through an eigen-solver, no discrete/algebraic kernel is left once externals are abstracted (DESIGN section 7)",
     "C21": "rotation matrices are produced inside sympy (polynomial expansion + evalf); orthogonality/composition live in that CAS computation, outside any contract this engine can generate VCs for (DESIGN section 7)",
